@@ -826,7 +826,9 @@ pub fn materialise(
     links_root: &Path,
     arrival_seed: u64,
     fired: Vec<String>,
-    fixed_mtime: bool,
+    // 0: time stamps as they come; 1: a transport that preserves time stamps (one fixed mtime); 2: every delivery
+    // carries an older time stamp than the one before (restored from an older archive, `touch -d`, clock set back)
+    fixed_mtime: u8,
     decoy_root: Option<&Path>,
     via_symlink: Option<u64>,
 ) -> std::io::Result<Materialised> {
@@ -902,11 +904,17 @@ pub fn materialise(
                 } else {
                     std::fs::write(&full, &s.bytes)?;
                 }
-                if fixed_mtime && !stored_elsewhere {
+                if fixed_mtime != 0 && !stored_elsewhere {
                     // a transport that preserves time stamps (rsync -t, cp -p, tar x): every delivery of a
                     // path carries the same mtime
                     if let Ok(c) = std::ffi::CString::new(full.to_string_lossy().as_bytes()) {
-                        let ts = [libc::timespec { tv_sec: 1_600_000_000, tv_nsec: 0 }, libc::timespec { tv_sec: 1_600_000_000, tv_nsec: 0 }];
+                        let sec = if fixed_mtime == 2 {
+                            static OLDER: std::sync::atomic::AtomicI64 = std::sync::atomic::AtomicI64::new(1);
+                            1_600_000_000 - 61 * OLDER.fetch_add(1, std::sync::atomic::Ordering::Relaxed)
+                        } else {
+                            1_600_000_000
+                        };
+                        let ts = [libc::timespec { tv_sec: sec, tv_nsec: 0 }, libc::timespec { tv_sec: sec, tv_nsec: 0 }];
                         unsafe {
                             libc::utimensat(libc::AT_FDCWD, c.as_ptr(), ts.as_ptr(), 0);
                         }
